@@ -1,13 +1,16 @@
 #!/bin/bash
-# usage: tools_run_seed.sh <seed-dir-name> <property> [tier]   -- applies the seeded patch to /repo, runs the check, reverts
+# usage: tools_run_seed.sh <seed-dir-name> <property> [tier]
+# applies the seeded patch to a scratch worktree of /repo's HEAD (outside /repo and /verif), runs the
+# property's check against it (SYMX_REPO), removes the worktree. /repo itself is never modified.
 seed=$1; prop=$2; tier=${3:-quick}
-cd /repo || exit 2
-if ! git diff --quiet; then echo "/repo not clean"; exit 2; fi
-git apply /verif/seeded/$seed/patch.diff || { echo "patch does not apply"; exit 2; }
+wt=/tmp/seedwt-$seed
+export GOFLAGS=-mod=mod GOPROXY=off GOSUMDB=off GOTOOLCHAIN=local
+git -C /repo worktree remove --force $wt 2>/dev/null
+git -C /repo worktree add -q $wt HEAD || exit 2
+( cd $wt && ( git apply /verif/seeded/$seed/patch.diff 2>/dev/null || git apply --3way /verif/seeded/$seed/patch.diff 2>/dev/null || patch -p1 -s --fuzz=3 < /verif/seeded/$seed/patch.diff ) ) || { echo "patch does not apply"; git -C /repo worktree remove --force $wt; exit 2; }
 cd /verif
-bin/check $prop $tier > /tmp/seedrun-$seed-$prop.log 2>&1; rc=$?
-git -C /repo checkout -- .
+(cd engine && go build -o ../bin/symx .) >&2
+SYMX_REPO=$wt bin/symx check $prop --tier $tier --out-dir /tmp/seedrun-$seed > /tmp/seedrun-$seed-$prop.log 2>&1; rc=$?
+git -C /repo worktree remove --force $wt; git -C /repo worktree prune
 grep -E "^(VIOLATION|KNOWN|INCONCLUSIVE|OK|ERROR)" /tmp/seedrun-$seed-$prop.log | cut -c1-300
 echo "seed=$seed prop=$prop tier=$tier rc=$rc"
-# the run above rewrote the evidence file from a mutated tree: restore the committed one
-git -C /verif checkout -- evidence/$prop.json 2>/dev/null
